@@ -166,6 +166,11 @@ func condImpliesSupported(p *Program, f domFact, feature *big64) bool {
 	if !neg {
 		return false
 	}
+	// the set that is asked must be the EFFECTIVE unsupported-feature set: the similarly named override set / override
+	// mask only say what the user overrode by hand, not what the target lacks
+	if strings.Contains(valuePath(c.Call.Args[0]), "Overrides") {
+		return false
+	}
 	mc, ok := c.Call.Args[1].(*ssa.Const)
 	if !ok || mc.Value == nil {
 		return false
